@@ -151,9 +151,39 @@ def world_lane(rnd):
     return gdbcheck.gen_lifetime(rnd, rnd.choice([3, 8]))
 
 
+def name_clash_sessions(res, rnd):
+    """an EARLIER connection announces an app id spelled like a LATER connection's name (`b`, `C`, ...): `connection b` must
+    select the connection named B (names are looked up before app ids), and listings / counts must be that connection's"""
+    import world
+    n = 40 if res.tier == 'quick' else 1500
+    out = []
+    for _ in range(n):
+        k = rnd.choice([2, 3, 3])
+        tags = ['c%d' % i for i in range(k)]
+        d, items = world.gen_history(rnd, n_conns=k, n_events=rnd.choice([12, 25, 40]), chatter=0.0, tags=tags)
+        first = next((j for j, it in enumerate(items) if it[0] == 'msg'), None)
+        if first is None:
+            continue
+        m0 = items[first][2]
+        w = rnd.choice(['b', 'B', 'c', 'C', 'a', 'A'])
+        app = dict(m0, iface='my_widget', id=4000 + rnd.randrange(50), name='set_app_id', args=[('str', w)], sent=True)
+        at = rnd.randrange(first + 1, len(items) + 1)
+        app['time_us'] = items[at - 1][2]['time_us'] if items[at - 1][0] == 'msg' else m0['time_us']
+        items = items[:at] + [('msg', items[first][1], app)] + items[at:]
+        c = sessioncheck.case_from_items(rnd, d, items, config=[None, None, 0, 1, 0])
+        tail = [rnd.choice(['connection ' + w, 'c ' + w.lower(), 'conn ' + w.upper()]), rnd.choice(['list ~ 2', 'list', 'connection']),
+                rnd.choice(['connection a', 'c B', 'connection c', 'connection']), 'list ~ 1']
+        c['events'] = c['events'] + [['cmd', t] for t in tail]
+        c['impl_events'] = c['impl_events'] + [('cmd', t) for t in tail]
+        out.append(c)
+    sessioncheck.run_cases(res, out, lambda cat: cat.startswith('out.cmd') or cat.startswith('final.ctrl.current') or cat.startswith('final.conn'),
+                           'C04 (app id spelled like a connection name)', theorem='C04_names_sequential / C11_list_exact', nontrivial=lambda c, m: True, kernel_sample=3)
+
+
 def extra_all(res, rnd, cases):
     extra(res, rnd, cases)
     sink_sequences(res, rnd)
+    name_clash_sessions(res, rnd)
 
 
 INFO, run, replay = sessprop.make(
